@@ -191,8 +191,225 @@ def check(ctx, mode, root, plan, errors, results, case):
                        {"why": "a directory object in the store lists something else than its writer staged", "oid": toid})
 
 
+# ---------------------------------------------------------------- one writer held mid-copy, the other runs up to its store listings
+class _Listing:
+    """an `os.scandir` iterator that reports when the listing has been taken completely (exhausted or closed)"""
+
+    def __init__(self, it, done):
+        self._it, self._done, self._fired, self._names = it, done, False, set()
+
+    def _fire(self):
+        if not self._fired:
+            self._fired = True
+            self._done(self._names)
+
+    def __iter__(self):
+        return self
+
+    def __next__(self):
+        try:
+            e = next(self._it)
+        except StopIteration:
+            self._fire()
+            raise
+        self._names.add(e.name)
+        return e
+
+    def close(self):
+        self._it.close()
+        self._fire()
+
+    def __enter__(self):
+        return self
+
+    def __exit__(self, *exc):
+        self.close()
+        return False
+
+
+def held_workspaces(root, tag, sizes, nshared):
+    """one directory per writer; the first `nshared` files of every writer have the same contents (same objects, same
+    fan-out directories), the others are the writer's own; a few files live in a subdirectory; identical bytes twice"""
+    plan = []
+    for w, n in enumerate(sizes):
+        files = {}
+        for i in range(n):
+            c = (b"held-%d-common-%d" % (tag, i)) if i < nshared else (b"held-%d-own-%d-%d" % (tag, w, i))
+            files[("sub", "g%03d" % i) if i % 7 == 3 else ("f%03d" % i,)] = c
+        files[("copy_of_first",)] = files[sorted(files)[0]]
+        d = os.path.join(root, "ws-%d-0" % w)
+        gen.materialize(d, files)
+        plan.append([(d, files)])
+    return plan
+
+
+def run_held(ctx, rng, sizes, nshared, hold_at, max_holds, shared_state):
+    """Schedule family: writer 0 is stopped inside a copy into the store when its temporary file is complete and the rename
+    into place is still to come (first at its `hold_at`-th copy, then at every later one, `max_holds` times at most); only
+    then do the other writers start (writer 1, and optionally a free-running writer 2).  Whenever another thread has taken a
+    *directory listing* below the store that shows the stopped writer's temporary file, writer 0 is released and the lister
+    waits until the rename has happened - what it listed is stale when it goes on.  When writer 1 has finished, writer 0
+    is released for good.  Events only, no sleeps."""
+    import dvc_objects.fs.local as objects_local
+    from dvc_data.hashfile.build import build
+    from dvc_data.hashfile.db.local import LocalHashFileDB
+    from dvc_data.hashfile.state import State
+    from dvc_data.hashfile.transfer import transfer
+
+    root = ctx.mkdtemp()
+    plan = held_workspaces(root, rng.randrange(10**6), sizes, nshared)
+    fs = stores.fs_local()
+    odb_path = os.path.join(root, "odb")
+    os.makedirs(odb_path)
+    below_store = odb_path + os.sep
+    ws0 = plan[0][0][0] + os.sep
+    WAIT = 60
+    started = threading.Event()   # writer 0 is stopped for the first time (or is gone)
+    info = {"hold": None, "copies": 0, "holds": 0, "stale_listings": 0, "store_listings": 0, "others_done": False, "stuck": []}
+    lock = threading.Lock()
+    errors, results = [], []
+
+    orig_copyfile, orig_scandir, orig_listdir = objects_local.copyfile, os.scandir, os.listdir
+    orig_replace, orig_rename = os.replace, os.rename
+
+    def copyfile(src, dest, *a, **kw):
+        ret = orig_copyfile(src, dest, *a, **kw)
+        if isinstance(src, str) and isinstance(dest, str) and src.startswith(ws0) and dest.startswith(below_store):
+            hold = None
+            with lock:
+                k = info["copies"]
+                info["copies"] += 1
+                if k >= hold_at and info["holds"] < max_holds and info["hold"] is None and not info["others_done"]:
+                    hold = info["hold"] = {"tmp": dest, "thread": threading.current_thread(), "go": threading.Event(),
+                                           "renamed": threading.Event()}
+                    info["holds"] += 1
+            if hold is not None:
+                started.set()
+                if not hold["go"].wait(WAIT):
+                    info["stuck"].append("the stopped writer was never released")
+        return ret
+
+    def mover(orig):
+        def move(src, dst, *a, **kw):
+            try:
+                return orig(src, dst, *a, **kw)
+            finally:
+                with lock:
+                    hold = info["hold"]
+                    if hold is not None and src == hold["tmp"]:
+                        info["hold"] = None
+                        hold["renamed"].set()
+        return move
+
+    def listed(path, names):
+        if not (isinstance(path, str) and (path + os.sep).startswith(below_store)):
+            return
+        with lock:
+            info["store_listings"] += 1
+            hold = info["hold"]
+            if hold is None or hold["thread"] is threading.current_thread() or hold["go"].is_set():
+                return
+            if os.path.dirname(hold["tmp"]) != os.path.normpath(path) or os.path.basename(hold["tmp"]) not in names:
+                return
+            info["stale_listings"] += 1
+        hold["go"].set()
+        if not hold["renamed"].wait(WAIT):
+            info["stuck"].append("the stopped writer's rename never happened")
+
+    def scandir(path=".", *a, **kw):
+        it = orig_scandir(path, *a, **kw)
+        if isinstance(path, str) and (path + os.sep).startswith(below_store):
+            return _Listing(it, lambda names: listed(path, names))
+        return it
+
+    def listdir(path=".", *a, **kw):
+        ret = orig_listdir(path, *a, **kw)
+        listed(path, set(ret))
+        return ret
+
+    def release_for_good():
+        with lock:
+            info["others_done"] = True
+            hold = info["hold"]
+        if hold is not None:
+            hold["go"].set()
+
+    one_state = State(root_dir=root, tmp_dir=os.path.join(root, "state")) if shared_state else None
+
+    def writer(w):
+        st = one_state or State(root_dir=root, tmp_dir=os.path.join(root, "state"))
+        try:
+            if w > 0 and not started.wait(WAIT):
+                info["stuck"].append("writer 0 never reached its copy")
+            odb = LocalHashFileDB(fs, odb_path, state=st)
+            for d, files in plan[w]:
+                staging, meta, obj = build(odb, d, fs, "md5")
+                res = transfer(staging, odb, {obj.hash_info}, shallow=False)
+                if res.failed:
+                    raise RuntimeError("transfer reported failures: %s" % sorted(h.value for h in res.failed)[:5])
+                results.append((d, obj.oid))
+        except BaseException as e:  # noqa: BLE001
+            errors.append("writer %d: %s: %s" % (w, type(e).__name__, e))
+        finally:
+            if w == 0:      # never leave the others waiting for a writer that is gone
+                started.set()
+                with lock:
+                    hold, info["hold"] = info["hold"], None
+                if hold is not None:
+                    hold["renamed"].set()
+            elif w == 1:
+                release_for_good()
+            if one_state is None:
+                st.close()
+
+    objects_local.copyfile, os.scandir, os.listdir = copyfile, scandir, listdir
+    os.replace, os.rename = mover(orig_replace), mover(orig_rename)
+    try:
+        ts = [threading.Thread(target=writer, args=(w,)) for w in range(len(plan))]
+        for t in ts:
+            t.start()
+        for t in ts:
+            t.join(timeout=4 * WAIT)
+        alive = [t for t in ts if t.is_alive()]
+    finally:
+        release_for_good()
+        objects_local.copyfile, os.scandir, os.listdir = orig_copyfile, orig_scandir, orig_listdir
+        os.replace, os.rename = orig_replace, orig_rename
+        if one_state is not None:
+            one_state.close()
+    if alive or info["stuck"]:
+        raise core.Infra("held-writer round did not follow its schedule: %s" % (info["stuck"] or "a writer is stuck"))
+    return root, plan, errors, results, info
+
+
+def held_rounds(ctx, n_rounds):
+    """sizes of (stopped writer, running writer): a few files / a few hundred (every size-dependent path of the status query)"""
+    rng = ctx.rng
+    for i in range(n_rounds):
+        big0, big1 = [(False, True), (True, True), (False, True), (True, False), (False, False)][i % 5]
+        sizes = [rng.randrange(280, 340) if big else rng.randrange(2, 9) for big in (big0, big1)]
+        free_writer = rng.random() < 0.3
+        if free_writer:
+            sizes.append(rng.randrange(2, 40))
+        nshared = max(1, int(min(sizes[:2]) * rng.choice([1.0, 1.0, 0.5, 0.2])))
+        hold_at = rng.choice([0, 0, 0, 1, 2, rng.randrange(0, min(sizes[0], 6))])
+        max_holds = rng.choice([1, 1, 3, 10**6])
+        shared_state = rng.random() < 0.5
+        root, plan, errors, results, info = run_held(ctx, rng, sizes, nshared, hold_at, max_holds, shared_state)
+        case = {"mode": "held-writer", "run": i, "files_per_writer": sizes, "first_files_shared": nshared, "first_stop_at_copy": hold_at,
+                "stops_at_most": max_holds, "one_state_handle": shared_state, "free_writer": free_writer, "stops": info["holds"],
+                "store_listings_by_others": info["store_listings"], "listings_showing_the_stopped_writers_temp_file": info["stale_listings"],
+                "workspaces": "ws-<w>-0: file i is 'held-<tag>-common-<i>' for i < first_files_shared else 'held-<tag>-own-<w>-<i>'"}
+        ctx.case(case)
+        ctx.count("held-writer:stopped=%s running=%s" % ("large" if big0 else "small", "large" if big1 else "small"))
+        ctx.count("held-writer:released-by-%s" % ("stale-store-listing" if info["stale_listings"] else "end-of-other-writer"))
+        ctx.count("held-writer:one-state-handle=%s" % shared_state)
+        ctx.count("held-writer:writer-0-was-stopped=%s" % (info["holds"] > 0))
+        check(ctx, "held-writer", root, plan, errors, results, case)
+
+
 # ---------------------------------------------------------------- controlled interleavings (model correspondence)
-EMPTY_OID = "d41d8cd98f00b204e9800998ecf8427e"
+EMPTY_OID ="d41d8cd98f00b204e9800998ecf8427e"
 KIND_PCS = {"stat": {"stat", "restat"}, "read": {"read", "reread"}, "unlink": {"discard", "unlink", "rediscard"},
             "chmod:444": {"vprotect", "protect"}, "probe": {"probe"}, "rename": {"create"}, "save": {"save"}}
 NOBODY = 65534
@@ -466,7 +683,12 @@ def run(ctx):
         "N writers (2-8 threads with their own store handles and state handles in one process; 2-4 separate processes) stage and "
         "transfer 1-3 workspaces each into one local store sharing one hash-state database; contents are drawn from a pool whose "
         "md5s share fan-out prefixes, with identical files at the same level; thread scheduling is perturbed by sleeps/yields "
-        "injected from an audit hook at filesystem-operation boundaries. non-trivial = every run (heavy overlap by construction)"
+        "injected from an audit hook at filesystem-operation boundaries. Held-writer rounds: one writer is stopped inside a copy "
+        "into the store (temporary file complete, rename still to come) while another stages and transfers a directory of a few / "
+        "~300 files sharing contents with it (plus sometimes a free-running third); every directory listing below the store that "
+        "shows the stopped writer's temporary file releases it and waits for its rename (the listing is stale when the lister goes "
+        "on), the writer stops again at later copies, and is released for good when the other has finished; own state "
+        "handles or one shared handle. non-trivial = every run (heavy overlap by construction)"
     )
     ctx.assumptions = ["the GIL, SQLite busy-timeouts and C-level races are not exhibited by the model; the perturbed runs are supporting evidence",
                        "a second writer's reflink probe on a name another writer is just creating is a transient the step model does not show"]
@@ -498,6 +720,7 @@ def run(ctx):
         check(ctx, "processes", root, plan, errors, results, case)
         for tr in traces:
             conformance(ctx, "writer", tr, root, None)
+    held_rounds(ctx, ctx.n(5, 30))
     controlled(ctx, ctx.n(40, 600))
     verify_two_writers(ctx)
 
